@@ -25,14 +25,14 @@ def run(rep, tier, seed):
         "binary operations on operands of different bitwidths are a checked error of the class (CRAB_ERROR), outside the generators",
         "wrapint(z_number) accepts int64_t values only (documented through fits_wrapint); unsigned big numbers >= 2^63 are rejected",
         "the string constructor is exercised on decimal digit strings of numbers below 2^64 only",
-        "wrapped intervals: model = mirror of wrapped_interval_impl.hpp / lib/wrapped_interval.cpp with the repairs fixes/wrapint-5..9, tied by differential testing only",
+        "wrapped intervals: model = mirror of wrapped_interval_impl.hpp / lib/wrapped_interval.cpp with the repairs fixes/wrapint-5..10, tied by differential testing only",
         "wrapped intervals: both operands of a binary operation have the same bitwidth (or are top / bottom); "
-        "Trunc(64) and Shl(0) at bitwidth 64 reach ashr(64) (undefined behaviour) and are outside the generators; "
         "widening_thresholds and the q_number instance are not modelled; the widening computes 1 << (w - 3) in type int "
         "(undefined for w >= 34): the model follows what x86-64 code does (count modulo 32, sign extension), which only "
         "affects when the widening jumps to top",
-        "theorems not at full strength: Shl is proved for shift amounts 1..63 (C13_wv_shl_statement has 0..63), Trunc for "
-        "bits_to_keep < bitwidth (C13_wv_trunc_statement has <=)",
+        "shift amounts >= 64 at bitwidths >= 7 (LShr/AShr/Shl) shift a 64-bit word by 64 or more in wrapint: the model returns an error "
+        "there (C13_wv_lshr_amount_64), the generators reduce such amounts modulo 64; ZExt/SExt of a top interval is a CRAB_ERROR at class "
+        "level only (the domain tests for top first)",
     ]
     vlib.prove(rep, extra_targets=["Extract/ExtractWrapint.vo"])
     main, err = wrapint.gen_wi(seed, tier)
